@@ -37,6 +37,8 @@ func C12(c *Ctx) {
 	r.Rule("C12/R2", "all round entropy derives from the base seed", 8)
 	r.Rule("C12/R3", "no ambient non-determinism in replayed handlers", 2)
 	r.Rule("C12/R4", "log after compute, file after log", 2)
+	r.Rule("C12/R6", "the machine's database is opened with goleveldb's tolerant recovery options (a restart after a kill in the middle of a write must come up)", 2)
+	openTolerant(c, "C12/R6", []string{"/airgapped"})
 	r.Rule("C12/R5", "a replayed step overwrites what its first run stored: no database write of the machine is skipped (or turned into an error) because the entry already exists", 1)
 	c12OverwriteOnReplay(c)
 
